@@ -125,6 +125,16 @@ func c15cNewWorld(st *VStream, stats *VStats, n int) *c15cWorld {
 	return w
 }
 
+// position of the health domain in StandardHealthKeys order
+func (w *c15cWorld) typeIdx(nt *dialer.NetworkType) int {
+	for i, t := range w.types {
+		if t.Index() == nt.Index() {
+			return i
+		}
+	}
+	return -9
+}
+
 func (w *c15cWorld) takeCbs() string {
 	s := "cb=[" + strings.Join(w.cbs, ",") + "]"
 	w.cbs = w.cbs[:0]
@@ -150,6 +160,18 @@ func (w *c15cWorld) groupDump() string {
 	return strings.Join(parts, " | ")
 }
 
+func c15cParsePolicy(pol consts.DialerSelectionPolicy, fixedIdx int) ob.DialerSelectionPolicy {
+	var param config.FunctionListOrString = string(pol)
+	if pol == consts.DialerSelectionPolicy_Fixed {
+		param = &config_parser.Function{Name: "fixed", Params: []*config_parser.Param{{Val: strconv.Itoa(fixedIdx)}}}
+	}
+	p, err := ob.NewDialerSelectionPolicyFromGroupParam(&config.Group{Policy: param})
+	if err != nil || p == nil {
+		panic(fmt.Sprintf("policy %v(%d) rejected by the parser: %v", pol, fixedIdx, err))
+	}
+	return *p
+}
+
 func (w *c15cWorld) makeGroup(tol int64, pol consts.DialerSelectionPolicy, fixedIdx int, offs []int64) {
 	w.opt.CheckTolerance = time.Duration(tol)
 	ann := make([]*dialer.Annotation, w.n)
@@ -160,9 +182,9 @@ func (w *c15cWorld) makeGroup(tol int64, pol consts.DialerSelectionPolicy, fixed
 	}
 	op := fmt.Sprintf("group %d %s %d %s", tol, pol, fixedIdx, strings.Join(os, ","))
 	out := VRecover(func() string {
-		w.g = ob.NewDialerGroup(w.opt, "g", w.dialers, ann, ob.DialerSelectionPolicy{Policy: pol, FixedIndex: fixedIdx},
+		w.g = ob.NewDialerGroup(w.opt, "g", w.dialers, ann, c15cParsePolicy(pol, fixedIdx),
 			func(alive bool, nt *dialer.NetworkType, isInit bool) {
-				s := strconv.Itoa(nt.Index() - 2)
+				s := strconv.Itoa(w.typeIdx(nt))
 				if alive {
 					s += "+"
 				} else {
@@ -211,7 +233,7 @@ func (w *c15cWorld) sample(t, d int, lat int64) {
 }
 
 func (w *c15cWorld) kill(t, d int, force bool) {
-	alive, _, inform := dialer.VerifC15Fail(w.dialers[d], w.types[t], force, false)
+	alive, inform := dialer.VerifC15Fail(w.dialers[d], w.types[t], force, false)
 	w.syncPens(d)
 	a := "0"
 	if alive {
@@ -226,7 +248,7 @@ func (w *c15cWorld) kill(t, d int, force bool) {
 
 func (w *c15cWorld) setPolicy(pol consts.DialerSelectionPolicy, fixedIdx int) {
 	out := VRecover(func() string {
-		w.g.SetSelectionPolicy(ob.DialerSelectionPolicy{Policy: pol, FixedIndex: fixedIdx})
+		w.g.SetSelectionPolicy(c15cParsePolicy(pol, fixedIdx))
 		w.policy = pol
 		return w.takeCbs() + " " + w.groupDump()
 	})
@@ -316,7 +338,7 @@ func (w *c15cWorld) choose(udp, src6, dst6, withDomain bool, excl int) {
 					}
 				}
 			}
-			seen[fmt.Sprintf("%d:%d:%s", di, res.AdmissionNetworkTypeObj.Index()-2, fam)] = true
+			seen[fmt.Sprintf("%d:%d:%s", di, w.typeIdx(res.AdmissionNetworkTypeObj), fam)] = true
 			if i == 0 {
 				w.stats.Inc("choose.ok")
 				if res.SelectionNetworkTypeObj != nil && (res.SelectionNetworkTypeObj.IpVersion == consts.IpVersionStr_6) != sel6 {
@@ -447,7 +469,7 @@ func (w *c15cWorld) dial(r *VRand) {
 			if res.SelectionNetworkTypeObj != nil {
 				f = string(res.SelectionNetworkTypeObj.IpVersion)
 			}
-			return fmt.Sprintf("ok %d:%d:%s", di, res.AdmissionNetworkTypeObj.Index()-2, f)
+			return fmt.Sprintf("ok %d:%d:%s", di, w.typeIdx(res.AdmissionNetworkTypeObj), f)
 		}
 		strict := "?"
 		if res != nil {
